@@ -312,4 +312,143 @@ theorem readLebGoLoop_stop (l : Bytes) (acc : UInt64) (i : Nat) (v : UInt64) (k 
 theorem readLebGo_writeLeb_2_56 : readLebGo (writeLeb (2 ^ 56)) = some ((2 ^ 49 : Nat).toUInt64, 9) := by
   decide +kernel
 
+/-! ### agreement with the specification on arbitrary (also non-canonical) input
+
+    Whenever the LEB128 value occupies at most eight bytes, ReadLeb128 returns what the
+    specification says — padded encodings such as `[0x80, 0x00]` included. -/
+
+theorem readLebSpec_cons_lt (b : UInt8) (rest : Bytes) (h : b.toNat < 128) :
+    readLebSpec (b :: rest) = some (b.toNat, 1) := by
+  simp [readLebSpec, h]
+
+theorem readLebSpec_cons_ge (b : UInt8) (rest : Bytes) (h : 128 ≤ b.toNat) (v k : Nat)
+    (hs : readLebSpec (b :: rest) = some (v, k)) :
+    ∃ v' k', readLebSpec rest = some (v', k') ∧ v = b.toNat % 128 + 128 * v' ∧ k = k' + 1 := by
+  rw [readLebSpec, if_neg (by omega)] at hs
+  split at hs
+  · simp at hs
+  · rename_i v' k' heq
+    simp only [Option.some.injEq, Prod.mk.injEq] at hs
+    exact ⟨v', k', heq, hs.1.symm, hs.2.symm⟩
+
+theorem readLebSpec_bounds (l : Bytes) (v k : Nat) (hs : readLebSpec l = some (v, k)) :
+    0 < k ∧ k ≤ l.length ∧ v < 128 ^ k := by
+  induction l generalizing v k with
+  | nil => simp [readLebSpec] at hs
+  | cons b rest ih =>
+    by_cases hb : b.toNat < 128
+    · rw [readLebSpec_cons_lt b rest hb] at hs
+      simp only [Option.some.injEq, Prod.mk.injEq] at hs
+      obtain ⟨rfl, rfl⟩ := hs
+      simp only [List.length_cons]; omega
+    · obtain ⟨v', k', hs', rfl, rfl⟩ := readLebSpec_cons_ge b rest (by omega) v k hs
+      have := ih v' k' hs'
+      simp only [List.length_cons, Nat.pow_succ]; omega
+
+theorem readLebGoLoop_of_spec (l : Bytes) (v k : Nat) (hs : readLebSpec l = some (v, k))
+    (A : UInt64) (i : Nat) :
+    readLebGoLoop l (A <<< 8) i = some (decodeLeb128Go 9 (packGo A (l.take k)) 0, i + k) := by
+  induction l generalizing v k A i with
+  | nil => simp [readLebSpec] at hs
+  | cons b rest ih =>
+    by_cases hb : b.toNat < 128
+    · rw [readLebSpec_cons_lt b rest hb] at hs
+      simp only [Option.some.injEq, Prod.mk.injEq] at hs
+      obtain ⟨rfl, rfl⟩ := hs
+      have : (b &&& 0x80 == 0) = true := by rw [u8_flag]; simpa using hb
+      simp [readLebGoLoop, this, packGo]
+    · obtain ⟨v', k', hs', rfl, rfl⟩ := readLebSpec_cons_ge b rest (by omega) v k hs
+      have : (b &&& 0x80 == 0) = false := by rw [u8_flag]; simpa using hb
+      simp only [readLebGoLoop, this, Bool.false_eq_true, if_false, List.take_succ_cons, packGo]
+      rw [ih v' k' hs']
+      congr 2
+      omega
+
+theorem decode_packGo_of_spec (l : Bytes) (v k : Nat) (hs : readLebSpec l = some (v, k))
+    (A : UInt64) (j fuel : Nat) (hA : A.toNat < 256 ^ j) (hj : j + k ≤ 8) :
+    decodeLeb128Go (fuel + k) (packGo A (l.take k)) 0
+      = if A = 0 then v.toUInt64 else decodeLeb128Go fuel A (v.toUInt64 <<< 7) := by
+  induction l generalizing v k A j fuel with
+  | nil => simp [readLebSpec] at hs
+  | cons b rest ih =>
+    have hA56 : A.toNat < 2 ^ 56 := by
+      have := (readLebSpec_bounds _ v k hs).1
+      apply Nat.lt_of_lt_of_le hA
+      rw [pow256_eq]
+      exact Nat.pow_le_pow_right (by decide) (by omega)
+    by_cases hb : b.toNat < 128
+    · rw [readLebSpec_cons_lt b rest hb] at hs
+      simp only [Option.some.injEq, Prod.mk.injEq] at hs
+      obtain ⟨rfl, rfl⟩ := hs
+      simp only [List.take_succ_cons, List.take_zero, packGo]
+      rw [decodeLeb128Go]
+      simp only [u64_push_shr A _ hA56, u64_zero_or_and, u64_push_toNat A _ hA56]
+      have : (A.toNat * 256 + b.toNat) % 128 = b.toNat := by omega
+      rw [this]
+      simp
+    · obtain ⟨v', k', hs', rfl, rfl⟩ := readLebSpec_cons_ge b rest (by omega) v k hs
+      have hv' : v' < 2 ^ 49 := by
+        have := (readLebSpec_bounds _ v' k' hs').2.2
+        apply Nat.lt_of_lt_of_le this
+        rw [pow128_eq]
+        exact Nat.pow_le_pow_right (by decide) (by omega)
+      simp only [List.take_succ_cons, packGo]
+      have hb8 := b.toNat_lt
+      have hA' : (A <<< 8 ||| b.toUInt64).toNat = A.toNat * 256 + b.toNat :=
+        u64_push_toNat A _ hA56
+      have hA'lt : (A <<< 8 ||| b.toUInt64).toNat < 256 ^ (j + 1) := by
+        rw [hA', Nat.pow_succ]; omega
+      have hne : ¬ (A <<< 8 ||| b.toUInt64) = 0 := by
+        intro h0
+        have := congrArg UInt64.toNat h0
+        rw [hA'] at this
+        simp at this
+        omega
+      rw [show fuel + (k' + 1) = (fuel + 1) + k' by omega]
+      rw [ih v' k' hs' _ (j + 1) (fuel + 1) hA'lt (by omega)]
+      rw [if_neg hne, decodeLeb128Go]
+      simp only [u64_push_shr A _ hA56, u64_out_step v' _ (by omega), hA']
+      have : v' * 128 + (A.toNat * 256 + b.toNat) % 128 = b.toNat % 128 + 128 * v' := by omega
+      rw [this]
+      simp
+
+/-- ReadLeb128 = LEB128 on every input whose value ends within the first eight bytes -/
+theorem readLebGo_eq_spec (l : Bytes) (v k : Nat) (hs : readLebSpec l = some (v, k))
+    (hk : k ≤ 8) : readLebGo l = some (v.toUInt64, k) := by
+  have h0 : (0 : UInt64) = (0 : UInt64) <<< 8 := by decide
+  rw [readLebGo, h0, readLebGoLoop_of_spec l v k hs 0 0]
+  have h9 : 9 = (9 - k) + k := by omega
+  rw [h9, decode_packGo_of_spec l v k hs 0 0 _ (by decide) (by omega)]
+  simp
+
+/-- success/failure and the byte count agree with the specification on *every* input; only the
+    value can differ, and only beyond eight bytes -/
+theorem readLebGo_count_eq_spec (l : Bytes) :
+    (readLebGo l).map Prod.snd = (readLebSpec l).map Prod.snd := by
+  cases hs : readLebSpec l with
+  | none =>
+    have : ∀ (l : Bytes) (acc : UInt64) (i : Nat), readLebSpec l = none →
+        readLebGoLoop l acc i = none := by
+      intro l
+      induction l with
+      | nil => intros; rfl
+      | cons b rest ih =>
+        intro acc i h
+        by_cases hb : b.toNat < 128
+        · rw [readLebSpec_cons_lt b rest hb] at h; simp at h
+        · have hf : (b &&& 0x80 == 0) = false := by rw [u8_flag]; simpa using hb
+          simp only [readLebGoLoop, hf, Bool.false_eq_true, if_false]
+          apply ih
+          rw [readLebSpec, if_neg hb] at h
+          split at h
+          · assumption
+          · simp at h
+    simp [readLebGo, this l 0 0 hs]
+  | some p =>
+    obtain ⟨v, k⟩ := p
+    have := readLebGoLoop_of_spec l v k hs 0 0
+    have h0 : (0 : UInt64) <<< 8 = (0 : UInt64) := by decide
+    rw [h0] at this
+    simp [readLebGo, this]
+
 end Rtp.Model
